@@ -1104,10 +1104,11 @@ class MoneyConverter:
             raise ValueError('Different types of validity periods given.')
         # update internal dict
         base_currency = self._base_currency
-        it = (((validity, term_currency),
-               ExchangeRate(base_currency, unit_multiple, term_currency,
-                            term_amount))
-              for term_currency, term_amount, unit_multiple in rate_specs)
+        rates = (ExchangeRate(base_currency, unit_multiple, term_currency,
+                              term_amount)
+                 for term_currency, term_amount, unit_multiple in rate_specs)
+        # use the resolved currency as key (it may have been given as code)
+        it = (((validity, rate.term_currency), rate) for rate in rates)
         self._rate_dict.update(it)
 
     def get_rate(self, unit_currency: Currency, term_currency: Currency,
